@@ -144,6 +144,12 @@ def hypsB (o : BuildOpts) (ps : List Policy) (req : Request) : Bool :=
   (ps.all fun p => p.rules.all fun r => migrationOKB o p.ns r && ruleInScope o req p.ns r) &&
   req.peerOK && entriesDistinctB o ps
 
+def customEntriesDistinctB (o : BuildOpts) (ps : List Policy) : Bool :=
+  Decidable.decide ((((ps.filter (·.action == .custom)).flatMap (customEntries o)).map (·.1)).Nodup)
+
+def hypsAllB (o : BuildOpts) (ps : List Policy) (req : Request) : Bool :=
+  hypsB o ps req && customEntriesDistinctB o ps
+
 def translatableB (o : BuildOpts) (ps : List Policy) : Bool :=
   ps.all fun p => p.rules.all (ruleTranslatedB o p.ns)
 
